@@ -316,6 +316,28 @@ def framing(ctx):
             if bad:
                 ctx.violation('C06/StreamFace/run/internal-error', bad, {'kind': 'framing', 'rec': rec})
             ctx.nt(['frR', stream.hex()[:64], len(stream), [e.get('k', 0) for e in evs][:40]])
+        # (iii) beyond the small scope: bursts - hundreds of complete packets sitting in the reader's buffer at once (one read
+        # of a busy connection; readexactly never yields while data is buffered), alone, behind a trickle, with a cut tail
+        for npk, mode in ctx.pick([(300, 'one'), (257, 'tail')], [(300, 'one'), (257, 'tail'), (256, 'one'), (1000, 'two'), (520, 'trickle')]):
+            rng = ctx.rng
+            pk = [mk_pkt(rng.choice([5, 6, 6, 100]), rng.choice([0, 1, 2, 3, 7])) for _ in range(npk)]
+            full = b''.join(pk)
+            if mode == 'one':
+                stream, evs = full, [{'a': 'Feed', 'k': len(full)}, {'a': 'Eof'}]
+            elif mode == 'tail':
+                stream = full + mk_pkt(6, 40)[:17]
+                evs = [{'a': 'FeedEof'}]
+            elif mode == 'two':
+                h = len(b''.join(pk[:npk // 2])) + 1
+                stream, evs = full, [{'a': 'Feed', 'k': h}, {'a': 'Feed', 'k': len(full) - h}, {'a': 'Eof'}]
+            else:
+                stream = full
+                evs = [{'a': 'Feed', 'k': 1}] * 9 + [{'a': 'Feed', 'k': len(full) - 9}, {'a': 'Eof'}]
+            rec, bad = run_stream(stream, evs)
+            recs.append(rec)
+            if bad:
+                ctx.violation('C06/StreamFace/run/internal-error', bad, {'kind': 'framing', 'rec': {'ev': rec['ev'][-1:]}})
+            ctx.nt(['frB', npk, mode])
     if recs:
         ctx.traces += len(recs)
         ctx.evaluations += len(recs)
